@@ -454,7 +454,7 @@ fn random_shape(r: &mut Rng, thorough: bool) -> Shape {
                 _ => deps.push((*r.pick(OTHERS)).to_string()),
             }
         }
-        if r.chance(1, 14) { let at = r.below(deps.len() as u64 + 1) as usize; deps.insert(at, "libcnb:no/such".into()); }
+        if r.chance(1, 24) { let at = r.below(deps.len() as u64 + 1) as usize; deps.insert(at, "libcnb:no/such".into()); }
         else if !foreign.is_empty() && r.chance(1, 25) { deps.push(format!("libcnb:{}", foreign[0].0)); }
         let members: Vec<String> = deps.iter().filter_map(|d| d.strip_prefix("libcnb:").map(str::to_string)).collect();
         let platform = (*r.pick(&["none", "none", "linux"])).to_string();
@@ -531,10 +531,16 @@ fn emit_case(emit: &mut dyn FnMut(Case), shape: &Shape, inv: &str, profile: &str
     });
 }
 
-fn inv_dirs(shape: &Shape) -> Vec<String> {
+fn inv_dirs(shape: &Shape, r: Option<&mut Rng>) -> Vec<String> {
     let mut v = vec![".".to_string()];
-    v.extend(shape.bps.iter().map(|b| b.dir.clone()));
-    v.extend(shape.plain_dirs.iter().take(1).cloned());
+    match r {
+        None => { v.extend(shape.bps.iter().map(|b| b.dir.clone())); v.extend(shape.plain_dirs.iter().take(1).cloned()); }
+        // random workspaces: every libcnb.rs / composite directory, the unselectable ones (foreign, plain) only now and then
+        Some(r) => {
+            for b in &shape.bps { if !matches!(b.kind, Kind::Foreign) || r.chance(1, 3) { v.push(b.dir.clone()); } }
+            if r.chance(1, 3) { v.extend(shape.plain_dirs.iter().take(1).cloned()); }
+        }
+    }
     v
 }
 
@@ -544,17 +550,17 @@ fn generate(tier: &str, seed: u64, emit: &mut dyn FnMut(Case)) {
     // part 1 (bounded exhaustive): three fixed workspaces x every invocation directory x both profiles, clean package directory
     if !search {
         for shape in fixed_shapes() {
-            for inv in inv_dirs(&shape) { for profile in ["dev", "release"] { emit_case(emit, &shape, &inv, profile, None, "-", &[], "fixed"); } }
+            for inv in inv_dirs(&shape, None) { for profile in ["dev", "release"] { emit_case(emit, &shape, &inv, profile, None, "-", &[], "fixed"); } }
         }
     }
     // part 2: seeded random workspaces x every invocation directory
-    let n_ws: u64 = if thorough { 300 } else if search { 12 } else { 20 };
+    let n_ws: u64 = if thorough { 300 } else if search { 16 } else { 28 };
     let pds: &[&str] = &["out", "./out/./dir", "../pk", "$T/abs/pkg", "$T/abs/pkg/", "$T/x/../abs2", "nested/out/../dir"];
     for w in 0..n_ws {
         let mut r = Rng::for_case(seed, w);
         let shape = random_shape(&mut r, thorough);
         let packable_dirs: Vec<String> = shape.bps.iter().filter(|b| !matches!(b.kind, Kind::Foreign)).map(|b| b.dir.clone()).collect();
-        for inv in inv_dirs(&shape) {
+        for inv in inv_dirs(&shape, Some(&mut r)) {
             let profile = if r.chance(1, 2) { "dev" } else { "release" };
             let pd: Option<&str> = if r.chance(3, 5) { None } else { Some(*r.pick(pds)) };
             // `../pk` from the workspace root leaves the workspace but stays inside the scratch directory; from deeper it stays inside the workspace
